@@ -5,6 +5,8 @@ from .C02 import gen_tt_pattern, all_ranks_used
 
 A = {'scalar_mode': 'A', 'logic': 'QF_NRA', 'setup': {'factor_mode': 'exact'}}
 
+THOROUGH_SEEDS = 4
+
 
 def cases(tier, seed):
     rng = random.Random(seed + 19)
